@@ -377,6 +377,17 @@ func init() {
 		cmd.Dir = croot
 		cmd.Env = gen.GoEnv()
 		out, err := cmd.CombinedOutput()
+		for try := 0; err != nil && gen.ToolchainTrouble(string(out)); try++ {
+			// the build environment (a cache entry removed under the compiler, a full disk), not the emitted code
+			if try == 3 {
+				ev.Inconsistent("go build of the emitted packages fails for reasons of the build environment: %v\n%s", err, out[:min(len(out), 3000)])
+			}
+			time.Sleep(5 * time.Second)
+			cmd = exec.Command("go", "build", "-trimpath", "./...")
+			cmd.Dir = croot
+			cmd.Env = gen.GoEnv()
+			out, err = cmd.CombinedOutput()
+		}
 		r.Set("compile_wall_s", time.Since(tBuild).Seconds())
 		if err != nil {
 			failed := map[string]string{}
